@@ -551,7 +551,7 @@ func runAcceptedRefusals(r *rep.Report) {
 func TestC05(t *testing.T) {
 	r := rep.New(t, "C05")
 	defer r.Flush()
-	r.Rule("routing: 9 attach variants (none, server options only, empty, path with/without slash, nested, addTrailingSlash on/off) x 16 request paths (exact, sub-paths, missing slash, dot segments, doubled slashes, case variants, unrelated) through types.HttpServer.ServeHTTP with a marked default handler, against a reference mount rule; admission: the abstract table method x transport value (incl. absent, repeated, webtransport, garbage) x sid {absent, unknown, known same/other transport, closed} x EIO x Origin bytes x upgrade headers x hook x middleware x enabled transports x allowEIO3 against a reference precedence model (differential), one connection_error per rejection, registry snapshot, canary session; plus refusals after an accepted WebSocket; thorough enumerates the table completely, quick a deterministic stride of it; distinct = table cells")
+	r.Rule("routing: 9 attach variants (none, server options only, empty, path with/without slash, nested, addTrailingSlash on/off) x 16 request paths (exact, sub-paths, missing slash, dot segments, doubled slashes, case variants, unrelated) x methods {GET, POST, CONNECT, OPTIONS, DELETE} through types.HttpServer.ServeHTTP with a marked default handler, against a reference mount rule; admission: the abstract table method x transport value (incl. absent, repeated, webtransport, garbage) x sid {absent, unknown, known same/other transport, closed} x EIO x Origin bytes x upgrade headers x hook x middleware x enabled transports x allowEIO3 against a reference precedence model (differential), one connection_error per rejection, registry snapshot, canary session; plus refusals after an accepted WebSocket and an allowRequest refusal of a real WebTransport session (QUIC on loopback); thorough enumerates the table completely, quick a deterministic stride of it; distinct = table cells")
 	r.Assume("a WebSocket upgrade request on a server whose transports exclude websocket may be answered 501 or with the documented 'Transport unknown' error; for a repeated transport parameter either value may count")
 	r.Assume("cells whose outcome needs a hijackable connection (accepted WebSocket upgrades) or a blocking poll are decided in the R-http lanes of this and other checks and are counted as not decidable here")
 	if r.Lane == 0 {
